@@ -182,6 +182,17 @@ pub fn run_family(name: &str, thorough: bool) -> Vec<Value> {
             }
             p.dec("modulus-ecap".into(), "pok.from_bytes", &replace(&f.proof, 144, &modulus_r()), &["noncanonical"]);
             p.dec("empty".into(), "pok.from_bytes", &[], &["truncated"]);
+            // honest proofs with many undisclosed messages decode to themselves
+            let kp = KP::<Sha>::generate(IKM, None, None).unwrap();
+            for l in [64usize, 127, 128, 129, 200] {
+                let m = msgs(l);
+                let sig = Sig::<Sha>::sign(Some(&m), kp.private_key(), kp.public_key(), Some(HEADER)).unwrap();
+                // (a generator that panics or refuses here is reported by the completeness families, not by this decoder family)
+                let r = std::panic::catch_unwind(std::panic::AssertUnwindSafe(|| Pok::<Sha>::proof_gen(kp.public_key(), &sig.to_bytes(), Some(HEADER), Some(PH), Some(&m), None)));
+                if let Ok(Ok(pr)) = r {
+                    p.dec(format!("honest-U{}", l), "pok.from_bytes", &pr.to_bytes(), &["exact"]);
+                }
+            }
         }
         "zkpok" => {
             let h = &f.commitment[48..];
@@ -193,6 +204,16 @@ pub fn run_family(name: &str, thorough: bool) -> Vec<Value> {
             decoder_family(&mut p, "commitment.from_bytes", &f.commitment, thorough, false);
             p.dec("empty".into(), "commitment.from_bytes", &[], &["truncated"]);
             p.dec("low-order-C".into(), "commitment.from_bytes", &replace(&f.commitment, 0, &g1_low_order()), &["forbidden-nonsubgroup"]);
+            // honest encodings with many committed messages decode to themselves (sizes far from the fixtures)
+            for mm in [64usize, 127, 128, 129, 200] {
+                let r = std::panic::catch_unwind(std::panic::AssertUnwindSafe(|| Com::<Sha>::commit(Some(&msgs(mm)))));
+                let cb = match r { Ok(Ok((c, _b))) => c.to_bytes(), _ => continue };
+                p.dec(format!("honest-M{}", mm), "commitment.from_bytes", &cb, &["exact"]);
+                p.dec(format!("honest-M{}-zkpok", mm), "zkpok.from_bytes", &cb[48..], &["exact"]);
+                let mut ext = cb.clone();
+                ext.extend_from_slice(&cb[cb.len() - 32..]);
+                p.dec(format!("honest-M{}-ext-scalar", mm), "commitment.from_bytes", &ext, &["extended", "extended-by-scalars"]);
+            }
         }
         "blindfactor" => {
             decoder_family(&mut p, "blindfactor.from_bytes", &f.blind, thorough, true);
@@ -212,6 +233,7 @@ pub fn run_family(name: &str, thorough: bool) -> Vec<Value> {
         "generators" => { crate::props::generators::<Sha>("sha256", &mut p.out, thorough); crate::props::generators::<Shake>("shake256", &mut p.out, thorough); crate::props::generators_cross(&mut p.out); }
         "limits" => { crate::props::limits::<Sha>("sha256", &mut p.out); crate::props::limits::<Shake>("shake256", &mut p.out); }
         "fresh" => { crate::props::fresh::<Sha>("sha256", &mut p.out); crate::props::fresh::<Shake>("shake256", &mut p.out); }
+        "history" => { crate::history::run(&mut p.out, thorough); }
         "consts" => {
             consts::run(&mut p.out);
         }
